@@ -131,6 +131,24 @@ theorem hash_not_complete :
       hashOf gCollide1 f 8 0 = hashOf gCollide2 f 8 0 := by
   decide +kernel
 
+/-! ### Known finding: inside a recursive type the hash depends on sharing -/
+
+/-- `T = { a: O, b: O }` with ONE object `O = { t: T }` used by both attributes -/
+def gShared : Graph := ⟨[.user "T" 0 false, .obj [("a", 1), ("b", 2)], .obj [("t", 3)]],
+                        [⟨1, []⟩, ⟨2, []⟩, ⟨2, []⟩, ⟨0, []⟩]⟩
+/-- the structurally equal type with two separate objects `{ t: T }` (what `Dup` builds from `gShared`) -/
+def gUnshared : Graph := ⟨[.user "T" 0 false, .obj [("a", 1), ("b", 2)], .obj [("t", 3)], .obj [("t", 4)]],
+                          [⟨1, []⟩, ⟨2, []⟩, ⟨3, []⟩, ⟨0, []⟩, ⟨0, []⟩]⟩
+
+/-- The two graphs are structurally equal (they unfold to the same infinite tree) but hash differently:
+    a reference to an object still being hashed contributes the text accumulated so far, which is
+    longer at the second attribute, and a shared object is hashed once. `Equal(T, Dup(T))` is false
+    for the real code on this type (known finding `hash/sharing-in-cycle`). -/
+theorem hash_sharing_in_cycle :
+    hashOf gShared ⟨false, false, false⟩ 12 0 = "_t_T!_o_-a/_o_-t/_t_T!_o_-b/_o_-t/_t_T!_o_" ∧
+    hashOf gUnshared ⟨false, false, false⟩ 12 0 = "_t_T!_o_-a/_o_-t/_t_T!_o_-b/_o_-t/_t_T!_o_-a/_o_-t/_t_T!_o_" := by
+  decide +kernel
+
 /-! ### Non-vacuity -/
 example : hashOf ⟨[.user "T" 0 false, .obj [("b", 1), ("a", 2)], .prim "int", .arr 3],
                   [⟨1, [("struct:field:name", ["N"])]⟩, ⟨2, []⟩, ⟨3, []⟩, ⟨0, []⟩]⟩ ⟨false, false, false⟩ 12 0
